@@ -206,34 +206,41 @@ def decodeResponse (raw : Text) : Option Response :=
           | none, none => none
       | _, _ => none
 
-/-! ### encoders (serde field order) -/
+/-! ### encoders (serde field order), built with `joinMembers` (the dual of `members`) -/
 
 def lit (s : String) : Text := s.toList.map Char.toNat
 
-def encodeErrObj (e : ErrObj) : Text :=
-  lit "{\"code\":" ++ encodeInt e.code ++ lit ",\"message\":" ++ encodeString e.message ++
+/-- `{ "k1":v1, … }` without any whitespace, keys escaped as serde_json does -/
+def objectText (kvs : List (Text × Text)) : Text := 123 :: (joinMembers kvs ++ [125])
+
+def errObjMembers (e : ErrObj) : List (Text × Text) :=
+  [(kCode, encodeInt e.code), (kMessage, encodeString e.message)] ++
     (match e.data with
-     | some d => lit ",\"data\":" ++ d
-     | none => []) ++ lit "}"
+     | some d => [(kData, d)]
+     | none => [])
 
-def encodeResponse (r : Response) : Text :=
-  lit "{" ++ (if r.jsonrpc then lit "\"jsonrpc\":\"2.0\"," else []) ++
-    lit "\"id\":" ++ encodeId r.id ++
-    (match r.payload with
-     | .result v => lit ",\"result\":" ++ v
-     | .error e => lit ",\"error\":" ++ encodeErrObj e) ++ lit "}"
+def encodeErrObj (e : ErrObj) : Text := objectText (errObjMembers e)
 
-def encodeRequest (r : Request) : Text :=
-  lit "{\"jsonrpc\":\"2.0\",\"id\":" ++ encodeId r.id ++ lit ",\"method\":" ++ encodeString r.method ++
+def responseMembers (r : Response) : List (Text × Text) :=
+  (if r.jsonrpc then [(kJsonrpc, encodeString tTwoZero)] else []) ++
+    [(kId, encodeId r.id),
+     (match r.payload with
+      | .result v => (kResult, v)
+      | .error e => (kError, encodeErrObj e))]
+
+def encodeResponse (r : Response) : Text := objectText (responseMembers r)
+
+def requestMembers (r : Request) : List (Text × Text) :=
+  [(kJsonrpc, encodeString tTwoZero), (kId, encodeId r.id), (kMethod, encodeString r.method)] ++
     (match r.params with
-     | some p => lit ",\"params\":" ++ p
-     | none => []) ++ lit "}"
+     | some p => [(kParams, p)]
+     | none => [])
+
+def encodeRequest (r : Request) : Text := objectText (requestMembers r)
 
 /-- `Notification<Option<RawValue>>` serialises `params: null` when absent (no skip attribute) -/
 def encodeNotif (n : Notif) : Text :=
-  lit "{\"jsonrpc\":\"2.0\",\"method\":" ++ encodeString n.method ++ lit ",\"params\":" ++
-    (match n.params with
-     | some p => p
-     | none => tNull) ++ lit "}"
+  objectText [(kJsonrpc, encodeString tTwoZero), (kMethod, encodeString n.method),
+    (kParams, match n.params with | some p => p | none => tNull)]
 
 end Jrpc
